@@ -37,7 +37,10 @@ let parse_pfx tok =
 
 let bytes_of_string (s : string) = Stdlib.List.init (String.length s) (fun i -> n (Char.code s.[i]))
 
-let run_case (line : string) : string =
+(* [explained]: print the model's token as the expected one wherever a recorded
+   finding class explains the difference (bulk engine ribqueryx); otherwise the
+   property's answer is the expected one (engine ribquery). *)
+let run_case_with (explained : bool) (line : string) : string =
   let rib = ref RibModel.rib_empty in
   let lim = ref { lim_v4 = n 8; lim_v6 = n 19 } in
   let peers : (int * BinNums.coq_N option option) list ref = ref [] in
@@ -97,8 +100,10 @@ let run_case (line : string) : string =
         let c = if m = s then "." else
             (match m <> mid, mid <> s with
              | true, true -> "MCMS" | true, false -> "MS" | false, true -> "MC" | false, false -> "?") in
-        emit m s c
+        if explained && c <> "?" then emit m m "." else emit m s c
     | _ -> failwith ("bad op: " ^ join " " toks) in
   Stdlib.List.iter (fun s -> do_op (words s)) (split_on ';' line);
   let j r = join " " (Stdlib.List.rev !r) in
   if !mo = !so then j mo else j mo ^ " ||| " ^ j so ^ " ||| " ^ j cl
+
+let run_case = run_case_with false
